@@ -443,7 +443,7 @@ def main(argv=None):
             rule=spec.rule,
             samples=agg.samples[:6],
             comparisons=agg.comparisons,
-            classes=dict(sorted(agg.labels.items(), key=lambda kv: (-kv[1], kv[0]))[:120]),
+            classes=dict(sorted(agg.labels.items(), key=lambda kv: (-kv[1], kv[0]))[:250]),
             per_subcheck={k: dict(v, wall_cpu_s=round(v["wall_cpu_s"], 1)) for k, v in sorted(per_sub.items())},
             rejected_cleanly=dict(agg.rejected),
             discarded_out_of_domain=dict(agg.discarded),
